@@ -11,6 +11,7 @@ mod s_sd;
 mod s_xyz;
 mod s_history;
 mod s_opt;
+mod s_build;
 mod s_trace;
 
 fn main() {
@@ -42,6 +43,7 @@ fn main() {
         "ff" => s_ff::run(&mut out, seed, &tier),
         "sd" => s_sd::run(&mut out, seed, &tier),
         "trace" => s_trace::run(&mut out, &rest[0]),
+        "build" => s_build::run(&mut out, seed, &tier),
         "opt" => s_opt::run(&mut out, seed, &tier),
         "history" => s_history::run(&mut out, seed, &tier),
         "xyz-write" => s_xyz::run_write(&mut out, seed, &tier),
